@@ -7,30 +7,52 @@
 //
 //   - X.mu.Lock/RLock/Unlock/RUnlock on a mutex field of a tracked struct (keyed by the root
 //     identifier X); `defer X.mu.Unlock()` keeps the lock to the end of the function;
+//
 //   - branches are walked on a copy of the state, a branch that ends in return/continue/break does not
 //     flow out, the others are merged by intersection (a lock counts only if held on every path);
+//
 //   - calls of package-local functions/methods are followed with the caller's locks on the receiver
 //     expression as the callee's entry lock set (context-sensitive, memoised);
+//
 //   - a function that takes a *sync.(RW)Mutex parameter and calls its func-typed parameters (the
 //     shape of resource.GetAndUpdate) is summarised from its own body: "parameter i is called with
 //     the mutex parameter held in mode m"; func literals passed at such a call are walked once per
 //     summarised lock set (so `get` is walked under RLock and under Lock, `change` under no lock and
 //     `save` under Lock — derived from GetAndUpdate's body, not declared);
+//
 //   - `go func(){…}()` starts with the empty lock set; other func literals are assumed to be called
 //     synchronously by the callee they are passed to and inherit the current lock set;
+//
 //   - a function value bound to a local (`get := func(){…}`, `f := r.save`, `g := f`) is walked where it
 //     is used, not where it is written: at its call (locks held there), at the argument slot it is passed
 //     in (so a GetAndUpdate callback passed through a local gets the slot's locks), at `go f()` (no
 //     locks); one that is only returned/stored is walked with the locks held at its definition;
+//
 //   - the locks a caller keeps holding while a callee runs travel into the callee: renamed to the
 //     callee's receiver for a direct receiver call X.m(), otherwise as ambient locks that are matched to
 //     accesses by the owner's type (the callee may reach the same object through another path);
+//
 //   - constructor-phase code (functions named New*/With*/compute*/calc*, composite literals) yields
 //     phase=init rows;
+//
 //   - channel fields: `close(X.c)` at the top level of a function, where it is the only close site of
 //     that channel in the package, is a release event for the plain top-level accesses before it;
 //     a receive from a channel that has no send site, or the `!ok` branch of `v, ok := <-X.c`, is an
 //     "observed closed" acquire event for the accesses after it on that path.
+//
+//   - tracked types: every struct with a sync.(RW)Mutex field, every type named Model, every struct
+//     with at least one pointer-receiver method (servers, groups, memory devices, wrappers — objects that
+//     are shared by pointer between the goroutines calling their methods), and the structs embedded in
+//     those; event types sent on a bus keep their `bus-shared:` treatment;
+//
+//   - single-assignment local aliases (`cc := c`) are resolved to the variable they copy before locks
+//     are matched to accesses (aliasesOf);
+//
+//   - functional options `func(o *T){…}` are constructor-phase (isOptionLit); accesses through a local
+//     that holds an object the function itself created, before the function's first go / send / close,
+//     are constructor-phase (fresh.go);
+//
+//   - `published:` rows for the contents of stored / published messages come from published.go.
 //
 // Declared (hand-justified) inputs are at the top of this file: pointee effects, single-goroutine
 // roles, constructor name patterns.
